@@ -189,6 +189,8 @@ class GraphInputs(_GraphIO):
 
     def _check_value(self, value: _core.Value) -> None:
         """Raise if the value cannot be an input of the graph."""
+        if not isinstance(value, _core.Value):
+            raise TypeError(f"Expected a Value, got {type(value)}")
         if value._graph is not None and value._graph is not self._graph:
             raise ValueError(
                 f"Value '{value}' is already owned by a different graph. Please remove the value from the previous graph first"
@@ -235,6 +237,8 @@ class GraphOutputs(_GraphIO):
 
     def _check_value(self, value: _core.Value) -> None:
         """Raise if the value cannot be an output of the graph."""
+        if not isinstance(value, _core.Value):
+            raise TypeError(f"Expected a Value, got {type(value)}")
         if value._graph is not None and value._graph is not self._graph:
             raise ValueError(
                 f"Value '{value}' is already an output of a different graph. Please remove the value from the previous graph first"
